@@ -47,3 +47,31 @@ Definition judge_struct (c : scase) : N :=
 Definition model_struct (c : scase) : str :=
   let at_text := fun a (n : bool) => let p := lookup ([], []) (sc_atexts c) a in if n then snd p else fst p in
   show (sc_S c) at_text (lookup [] (sc_ftexts c)) (lookup [] (sc_vtexts c)) (conv (sc_K c) false (sc_tree c)).
+
+(* suite strop: (operator configuration, source string, implementation's (operator, value items)) *)
+From PS Require Import Base.Outcome Model.SString Model.StrOp Spec.Items Proofs.StrOpP.
+Definition sop_eqb (a b : sop) : bool :=
+  match a, b with
+  | OpStartswith, OpStartswith | OpEndswith, OpEndswith | OpContains, OpContains
+  | OpWildMatch, OpWildMatch | OpEq, OpEq => true
+  | _, _ => false
+  end.
+Fixpoint norm_multi (l : list item) : list item :=
+  match l with
+  | Multi :: ((Multi :: _) as r) => norm_multi r
+  | i :: r => i :: norm_multi r
+  | [] => []
+  end.
+Definition judge_strop (c : opcfg * str * option (sop * list item)) : N :=
+  let '(K, s, r) := c in
+  let v := parse true s in
+  let m := str_op K v in
+  let agree := match r, m with
+               | Some (o, l), (o', Ok x) => sop_eqb o o' && list_eqb item_eqb l (items x)
+               | _, _ => false
+               end in
+  let spec := match r with
+              | Some (o, l) => list_eqb item_eqb (norm_multi (pattern o l)) (norm_multi (iparse s))
+              | None => false
+              end in
+  bits agree spec true (existsb is_special s).
